@@ -356,3 +356,108 @@ Proof.
     apply nth_error_In in Hn. destruct (Hall i0 a0 Hn) as [e He]. congruence.
   - split; [intro H; inversion H; auto | intros (-> & _); reflexivity].
 Qed.
+
+(* ------------------------------------------------------------------ rfind_skip *)
+
+(** where the match consumed by [Parser::rfind_skip(a)] = [Ok Q] ended *)
+Definition match_end (Q : Parser.parser) (a : list Z) : Z := Parser.end_offset Q + zlen a.
+
+(** arm [j] = [(i, a)] wins the rfind_skip chain on [P] with result [Q]: its call returns
+    [Ok Q] and every other call that returns Ok matched no later, and strictly earlier
+    if it is listed before *)
+Definition rfind_winner (P : Parser.parser) (arms : arm_list) (j i : nat) (a : list Z)
+           (Q : Parser.parser) : Prop :=
+  nth_error arms j = Some (i, a) /\
+  Parser.step P (Parser.ORFindSkip a) = Parser.POk Parser.VNone Q /\
+  forall j' i' a' Q', nth_error arms j' = Some (i', a') ->
+    Parser.step P (Parser.ORFindSkip a') = Parser.POk Parser.VNone Q' ->
+    match_end Q' a' <= match_end Q a /\ ((j' < j)%nat -> match_end Q' a' < match_end Q a).
+
+Lemma rfind_winner_unique P arms j i a Q j2 i2 a2 Q2 :
+  rfind_winner P arms j i a Q -> rfind_winner P arms j2 i2 a2 Q2 ->
+  j = j2 /\ i = i2 /\ a = a2 /\ Q = Q2.
+Proof.
+  intros (Hn & Hs & Hw) (Hn2 & Hs2 & Hw2).
+  destruct (Hw _ _ _ _ Hn2 Hs2) as [L1 S1]. destruct (Hw2 _ _ _ _ Hn Hs) as [L2 S2].
+  assert (j = j2).
+  { destruct (Nat.lt_trichotomy j j2) as [L|[E|L]]; [specialize (S2 L); lia | exact E | specialize (S1 L); lia]. }
+  subst j2. rewrite Hn in Hn2. inversion Hn2; subst. rewrite Hs in Hs2. inversion Hs2. auto.
+Qed.
+
+Lemma match_end_firstn P a k : (k + length a <= length (Parser.p_str P))%nat ->
+  match_end (Parser.mk_parser Parser.FromEnd (Parser.p_yls P) (Parser.p_start P) (firstn k (Parser.p_str P))) a
+  = Parser.p_start P + Z.of_nat (k + length a).
+Proof.
+  intro Hk. unfold match_end, Parser.end_offset, zlen. cbn [Parser.p_start Parser.p_str].
+  rewrite firstn_length. lia.
+Qed.
+
+(** the arm the backward scan loop selects wins the chain *)
+Lemma rfind_selected_wins P arms e j i a :
+  first_listed (fun a => occ_end (Parser.p_str P) a e) arms j i a ->
+  (forall e', (e < e')%nat -> none_listed (fun a => occ_end (Parser.p_str P) a e') arms) ->
+  rfind_winner P arms j i a (end_to P (firstn (e - length a) (Parser.p_str P))).
+Proof.
+  intros Hfl Hmax. destruct Hfl as (Hn & (k & Ho & Hk) & Hbefore).
+  assert (Ek : (e - length a = k)%nat) by lia. rewrite Ek.
+  assert (Hlo : last_occ (Parser.p_str P) a k).
+  { split; [exact Ho|]. intros k2 Hk2 Ho2.
+    apply (Hmax (k2 + length a)%nat ltac:(lia) i a); [eapply nth_error_In; eassumption | now exists k2]. }
+  split; [exact Hn|]. split.
+  - apply step_rfind_ok. exists k. split; [exact Hlo | reflexivity].
+  - intros j' i' a' Q' Hn' Hs'. apply step_rfind_ok in Hs'. destruct Hs' as (k' & Hlo' & ->).
+    unfold end_to. rewrite !match_end_firstn by (apply occ_bound; [exact (proj1 Hlo') || exact Ho]).
+    assert (Hle : (k' + length a' <= e)%nat).
+    { destruct (Nat.le_gt_cases (k' + length a') e) as [L|L]; [exact L|]. exfalso.
+      apply (Hmax _ L i' a'); [eapply nth_error_In; eassumption | exists k'; split; [exact (proj1 Hlo') | reflexivity]]. }
+    split; [lia|]. intro Hj.
+    assert ((k' + length a')%nat <> e).
+    { intro E. apply (Hbefore j' i' a' Hj Hn'). exists k'. split; [exact (proj1 Hlo') | exact E]. }
+    lia.
+Qed.
+
+(** the whole rfind_skip form against the chain, in one statement *)
+Lemma rfind_macro_chain_cases brs P :
+  arms_shaped (arms_of brs) ->
+  (exists j i a Q, rfind_winner P (arms_of brs) j i a Q /\
+                   find_macro AtEnd brs (abs P) = (Some i, abs Q)) \/
+  ((forall i a, In (i, a) (arms_of brs) -> exists e, Parser.step P (Parser.ORFindSkip a) = Parser.PErr e) /\
+   find_macro AtEnd brs (abs P) = (None, abs P)).
+Proof.
+  intros Ha. rewrite (find_macro_end_cut brs (abs P) Ha). cbn [abs p_rem].
+  destruct (find_loop_end (arms_of brs) (rev (Parser.p_str P))) as [[i r]|] eqn:E.
+  - left. apply find_loop_end_some in E. destruct E as (e & j & a & Hfl & -> & Hmax).
+    exists j, i, a, (end_to P (firstn (e - length a) (Parser.p_str P))).
+    split; [exact (rfind_selected_wins P _ e j i a Hfl Hmax) | reflexivity].
+  - right. split; [|reflexivity]. intros i a Hin. apply step_rfind_err. intros k Hk.
+    apply (proj1 (find_loop_end_none _ _) E (k + length a)%nat i a Hin). now exists k.
+Qed.
+
+(** rfind_eq_chain *)
+Lemma rfind_macro_some brs P i q :
+  arms_shaped (arms_of brs) ->
+  (find_macro AtEnd brs (abs P) = (Some i, q) <->
+   exists j a Q, rfind_winner P (arms_of brs) j i a Q /\ q = abs Q).
+Proof.
+  intros Ha.
+  destruct (rfind_macro_chain_cases brs P Ha) as [(j0 & i0 & a0 & Q0 & HW & E)|[Hall E]]; rewrite E.
+  - split.
+    + intro H; inversion H; subst. now exists j0, a0, Q0.
+    + intros (j & a & Q & HW' & ->).
+      destruct (rfind_winner_unique _ _ _ _ _ _ _ _ _ _ HW HW') as (_ & -> & _ & ->). reflexivity.
+  - split; [discriminate|]. intros (j & a & Q & (Hn & Hs & _) & _). exfalso.
+    apply nth_error_In in Hn. destruct (Hall i a Hn) as [e He]. congruence.
+Qed.
+
+Lemma rfind_macro_none brs P q :
+  arms_shaped (arms_of brs) ->
+  (find_macro AtEnd brs (abs P) = (None, q) <->
+   q = abs P /\ forall i a, In (i, a) (arms_of brs) ->
+                  exists e, Parser.step P (Parser.ORFindSkip a) = Parser.PErr e).
+Proof.
+  intros Ha.
+  destruct (rfind_macro_chain_cases brs P Ha) as [(j0 & i0 & a0 & Q0 & HW & E)|[Hall E]]; rewrite E.
+  - split; [discriminate|]. intros (_ & Hall). exfalso. destruct HW as (Hn & Hs & _).
+    apply nth_error_In in Hn. destruct (Hall i0 a0 Hn) as [e He]. congruence.
+  - split; [intro H; inversion H; auto | intros (-> & _); reflexivity].
+Qed.
